@@ -12,10 +12,15 @@ if [ ! -f /verif/vendor/.complete ]; then
   echo "vendor/ missing: run ./setup.sh first" >&2; exit 2
 fi
 if [ "$what" = harness ] || [ "$what" = all ]; then
-  ( cd harness && cargo +stable build --release --quiet 2>&1 | grep -v '^warning' || true )
-  test -x harness/target/release/gv || { echo "harness build failed" >&2; ( cd harness && cargo +stable build --release 2>&1 | tail -40 ) >&2; exit 2; }
+  # a stale binary must never stand in for a failed build: cargo's own exit status decides
+  if ! ( cd harness && cargo +stable build --release --quiet > ../target-harness-build.log 2>&1 ); then
+    echo "harness build failed" >&2; grep -v '^warning' target-harness-build.log | tail -40 >&2; exit 2
+  fi
+  test -x harness/target/release/gv || { echo "harness build failed" >&2; exit 2; }
 fi
 if [ "$what" = tool ] || [ "$what" = all ]; then
-  ( cd /repo && cargo build --release --offline --quiet -p cfn-guard --bin cfn-guard --target-dir /verif/target/tool 2>&1 | grep -v '^warning' || true )
+  if ! ( cd /repo && cargo build --release --offline --quiet -p cfn-guard --bin cfn-guard --target-dir /verif/target/tool > /verif/target-tool-build.log 2>&1 ); then
+    echo "tool build failed" >&2; grep -v '^warning' /verif/target-tool-build.log | tail -40 >&2; exit 2
+  fi
   test -x /verif/target/tool/release/cfn-guard || { echo "tool build failed" >&2; exit 2; }
 fi
